@@ -207,17 +207,32 @@ pub fn cartesian(base: usize, k: usize) -> Vec<Vec<usize>> {
 /// Parallel map with a wall-clock budget. Returns one `Option<R>` per case (None = skipped
 /// because the budget ran out) in input order.
 pub fn par_run<C: Sync, R: Send>(cases: &[C], start: Instant, budget: Duration, f: impl Fn(usize, &C) -> R + Sync) -> Vec<Option<R>> {
-    cases
+    let panics = std::sync::Mutex::new(Vec::<String>::new());
+    let out: Vec<Option<R>> = cases
         .par_iter()
         .enumerate()
         .map(|(i, c)| {
             if start.elapsed() > budget {
                 None
             } else {
-                Some(f(i, c))
+                // calls into the subject are wrapped individually by the checks; an unwind that
+                // reaches this point comes from the harness itself
+                match crate::evidence::guarded(|| f(i, c)) {
+                    Ok(r) => Some(r),
+                    Err(m) => {
+                        panics.lock().unwrap().push(format!("case #{}: {}", i, m));
+                        None
+                    }
+                }
             }
         })
-        .collect()
+        .collect();
+    let p = panics.into_inner().unwrap();
+    if !p.is_empty() {
+        eprintln!("machinery: the harness itself panicked in {} case(s) (not a verdict); first: {}", p.len(), p[0]);
+        std::process::exit(2);
+    }
+    out
 }
 
 pub fn pick<T: Clone>(v: &[T]) -> Vec<T> {
